@@ -343,6 +343,10 @@ def tie_world(r):
     for d in range(r.randint(1, 3)):
         log.append(("heading", "2021/01/%02d" % (d + 1)))
         for f in r.sample(foods, min(len(foods), r.randint(2, 6))): log.append(("entry", f, r.choice(["1", "1", "2"])))
+    if r.random() < 0.2:
+        # values that no comparison orders (NaN; Inf and -Inf of one food add up to NaN): a sort on them must still not depend on the map order
+        for f in r.sample(foods, 2): log.append(("entry", f, r.choice(["NaN", "nan", "Inf", "-Inf"])))
+        if r.random() < 0.5: f = r.choice(foods); log += [("entry", f, "Inf"), ("heading", "2021/01/04"), ("entry", f, "-Inf")]
     return book, log
 
 def boundary_world(r):
@@ -563,6 +567,24 @@ def check_C06(ctx):
                     c1 = dict(files=fg, cmd="summary", arg=arg.encode(), f_today=gd.strftime("%Y/%m/%d"), tz=(zone, off), **NOCOLOR)
                     cases.append(c1); pairs.append((len(cases) - 1, None, (sel, gds)))
                     ctx.tally("tz", zone)
+        # a date format that carries a zone ("2006/01/02 -0700", outside the model): the period is still the filter, compared on the implementation alone
+        if ln < ctx.scale(2, 8):
+            for zfmt, zsuf in (("2006/01/02 -0700", " +0530"), ("2006/01/02 -0700", " -0330"), ("2006/01/02 Z07:00", " +05:45"), ("2006/01/02 -0700", " +0000")):
+                zds = [(2021, 1, 19), (2021, 1, 20), (2021, 1, 22), (2021, 1, 21), (2021, 1, 20)]
+                zitems = []
+                for (y, m, d) in zds:
+                    zitems.append(("heading", "%04d/%02d/%02d%s" % (y, m, d, zsuf))); zitems.append(("entry", r.choice(["bread", "tea", "a/b"]), gen.number(r, True)))
+                fz = {"food.yaml": book, "log.yaml": gen.render_items(r, zitems, crlf=False, final_newline=True)}
+                for (bb, ee) in [((2021, 1, 20), (2021, 1, 21)), ((2021, 1, 20), None), (None, (2021, 1, 20)), ((2021, 1, 22), (2021, 1, 22))]:
+                    keep = lambda i, bb=bb, ee=ee: (bb is None or zds[i] >= bb) and (ee is None or zds[i] <= ee)
+                    fdel = {"food.yaml": book, "log.yaml": gen.render_items(r, delete_days(zitems, keep), crlf=False, final_newline=True)}
+                    cmd = r.choice(["reg", "bal", "csv-log", "print", "totals", "quantity"])
+                    tz = r.choice([("UTC", 0), ("Asia/Tokyo", 32400), ("America/New_York", -18000), ("Asia/Kolkata", 19800)])
+                    kw = dict(g_begin="%04d/%02d/%02d%s" % (bb + (zsuf,)) if bb else None, g_end="%04d/%02d/%02d%s" % (ee + (zsuf,)) if ee else None)
+                    c1 = period_case(r, fz, cmd, tz=tz, f_fmt=zfmt, **kw); c2 = period_case(r, fdel, cmd, tz=tz, f_fmt=zfmt)
+                    c1["f_today"] = c2["f_today"] = "2021/01/24" + zsuf
+                    cases += [c1, c2]; pairs.append((len(cases) - 2, len(cases) - 1, "period %s..%s %s under the date format %r, TZ %s" % (bb, ee, cmd, zfmt, tz[0])))
+            ctx.nontriv(fz["log.yaml"])
         # days and bounds far from the present: years 1 ... 9999 (instants outside 1678 .. 2262 do not fit a 64-bit nanosecond counter)
         if ln < ctx.scale(2, 10):
             far = [(1, 1, 1), (1500, 6, 1), (1677, 9, 21), (1677, 9, 22), (1969, 12, 31), (2262, 4, 11), (2262, 4, 12), (2300, 1, 1), (9999, 12, 31), (2021, 1, 20), (2021, 1, 22)]
